@@ -46,7 +46,11 @@ def gen_Snippets(repo: pathlib.Path) -> str:
             extra = len(v.args) - 1 + len(v.keywords)
     if pattern is None:
         raise ExtractError("IMPLEMENTATION_KEY_RE not found")
-    fn = _func(mod, "read_from_directory")
+    # read_from_directory together with the module-level helpers it calls, local one-time names expanded: the same
+    # reading whether a step is written inline, through a local variable, or as a private helper function
+    from harness.extract import _reachable_functions, expand_locals
+
+    fn = ast.Module(body=[expand_locals(f) for f in _reachable_functions(mod, _func(mod, "read_from_directory"))], type_ignores=[])
     # the loop over the glob
     loops = []
     for node in ast.walk(fn):
